@@ -132,6 +132,12 @@ theorem length_cases_tie (sqrt : α → α) :
     show List.foldl _ 0 g = _
     rw [hf]
 
+/-- `case orb.Bound: return Length(g.ToRing(), df)`: the call with a `Ring` runs the Ring case -/
+theorem lengthBound_tie (sqrt : α → α) (lo hi : Pt α) :
+    Generated.LengthGo.lengthBound ⟨lo, hi⟩ (Planar.distance sqrt) = Planar.length sqrt (.bound lo hi) := by
+  rw [Planar.length]
+  exact lineStringLength_tie sqrt (Planar.boundRing lo hi)
+
 /-! ### area.go: the loops over lines, rings and polygons
 
 `math.Inf(1)` is the explicit parameter `inf` of the translation; the models write it `none`. -/
@@ -335,7 +341,7 @@ theorem all_translated_PlanarGo : Generated.PlanarGo.translated =
 
 theorem all_translated_LengthGo : Generated.LengthGo.translated =
     ["lineStringLength", "polygonLength", "lengthLineString", "lengthMultiLineString", "lengthRing", "lengthPolygon",
-     "lengthMultiPolygon"] := by
+     "lengthMultiPolygon", "lengthBound"] := by
   decide
 
 end Orb.C10Tie
